@@ -398,6 +398,63 @@ func implPqg(tag string, ns, k, l int, flat, cd, x []float32, cx, cy []uint8) (o
 	return f32hexN(ff) + " " + f32hexN(fp)
 }
 
+func implPqe(tag string, ns, k, l int, flat, v []float32) (out string) {
+	defer func() {
+		if r := recover(); r != nil {
+			out = "panic: " + fmt.Sprint(r)
+		}
+	}()
+	return hexU8(vectorstore.VerifProductEncode(ns, k, l, tagFn(tag), flat, v))
+}
+
+// encode on synthetic centroids: ties (duplicated centroids, the sub-vector itself among them), every position of the minimum,
+// the unfitted case; the model runs the generated encode with hardware floats (first minimum wins: bit for bit the same codes)
+func encodeLines(rng *vh.Rng, o *vh.Out, full bool) {
+	n := 200
+	if full {
+		n = 2000
+	}
+	o.Emit("pqe-unfitted", "pqe e 2 3 2 - "+hexW32([]float32{1, 2, 3, 4}), implPqe("e", 2, 3, 2, nil, []float32{1, 2, 3, 4}), false)
+	for t := 0; t < n; t++ {
+		ns, k, l := 1+rng.Intn(4), 1+rng.Intn(9), 1+rng.Intn(5)
+		tag := []string{"e", "d"}[t%2]
+		flat := make([]float32, 0, ns*k*l)
+		for _, c := range genData(rng, []int{gBlobs, gUnit, gMixed}[t%3], ns*k, l, 3) {
+			flat = append(flat, c...)
+		}
+		v := genData(rng, []int{gBlobs, gUnit, gMixed}[(t/3)%3], 1, ns*l, 2)[0]
+		for i := 0; i < ns; i++ {
+			switch rng.Intn(4) {
+			case 0: // a centroid duplicated at a later index: the first one must win
+				a, b := rng.Intn(k), rng.Intn(k)
+				copy(flat[(i*k+b)*l:(i*k+b+1)*l], flat[(i*k+a)*l:(i*k+a+1)*l])
+			case 1: // the sub-vector is one of the centroids
+				a := rng.Intn(k)
+				copy(v[i*l:(i+1)*l], flat[(i*k+a)*l:(i*k+a+1)*l])
+			}
+		}
+		line := fmt.Sprintf("pqe %s %d %d %d %s %s", tag, ns, k, l, hexW32(flat), hexW32(v))
+		got := implPqe(tag, ns, k, l, flat, v)
+		o.Emit("pqe", line, got, true)
+		// the property on the same input: no centroid strictly closer than the assigned one
+		codes, err := parseU8(got)
+		if err != nil || len(codes) != ns {
+			o.Fail("pq-encode-codes", fmt.Sprintf("encode gives %q for %d sub-vectors", got, ns), line)
+			continue
+		}
+		fn := tagFn(tag)
+		for i := 0; i < ns && int(codes[i]) < k; i++ {
+			sub := v[i*l : (i+1)*l]
+			mine := fn(sub, flat[(i*k+int(codes[i]))*l:(i*k+int(codes[i])+1)*l])
+			for j := 0; j < k; j++ {
+				if d := fn(sub, flat[(i*k+j)*l:(i*k+j+1)*l]); d < mine {
+					o.Fail("pq-encode-nearest:synthetic:"+tag, fmt.Sprintf("sub-vector %d %v is assigned centroid %d at distance %v, centroid %d is at %v", i, sub, codes[i], mine, j, d), line)
+				}
+			}
+		}
+	}
+}
+
 func emitFitted(o *vh.Out, c *fitCase, fp *vectorstore.VerifFittedProduct) {
 	if !c.pure || !fp.Fitted() {
 		return
@@ -607,6 +664,9 @@ func fitSection(rng *vh.Rng, o *vh.Out, full bool) {
 			}
 			runCase(c)
 		}
+	}
+	if emitLines {
+		encodeLines(rng, o, full)
 	}
 	// binary quantiser
 	dims := []int{1, 2, 3, 31, 63, 64, 65, 100, 127, 128, 129, 200}
